@@ -71,9 +71,9 @@ theorem remap_chain {α : Type} (K : Kern α) (Γ : Nat → OracleI α) (k : Nat
 /-- **transformed_interval_sound.** If the three coordinate evaluators and the underlying oracle
     enclose their point values on every box, so does the transformed oracle (composition of
     enclosures; `le` is an arbitrary relation, no order axioms are needed).
-    The hypothesis is *strict* enclosure of the coordinate values: `evalInterval` passes only the
-    bounds of the coordinate ranges on, so a coordinate range that is merely flagged maybe-NaN is
-    not covered (that case is the recorded finding C16:transformed-interval-drops-nan). -/
+    This is the *strict* form (no NaN anywhere); the flagged form, which covers coordinate ranges
+    that are flagged maybe-NaN, is `transformed_interval_sound_flagged` below (true of the code
+    since fix dde738c; `transformed_interval_old_unsound` is the witness against the old code). -/
 theorem transformed_interval_sound {α : Type} [Add α] [Mul α] (le : α → α → Prop) (F : FeatOps α)
     (u X Y Z : OracleI α) (hu : SoundOracle le u) (hX : SoundOracle le X) (hY : SoundOracle le Y)
     (hZ : SoundOracle le Z) : SoundOracle le (transformed F u X Y Z) := by
@@ -99,8 +99,78 @@ theorem transformed_interval_eq_plain {α : Type} [Add α] [Mul α] (F : FeatOps
     (hx : (ivl K Γ X lo hi).nan = false) (hy : (ivl K Γ Y lo hi).nan = false)
     (hz : (ivl K Γ Z lo hi).nan = false) :
     (transformed F (wrap K Γ fe e) (evalOf K Γ fe X) (evalOf K Γ fe Y) (evalOf K Γ fe Z)).interval lo hi
-      = ivl K Γ (remap X Y Z e) lo hi :=
-  (ivl_remap K Γ X Y Z e lo hi hx hy hz).symm
+      = ivl K Γ (remap X Y Z e) lo hi := by
+  rw [ivl_remap K Γ X Y Z e lo hi hx hy hz]
+  have hx' : ((evalOf K Γ fe X).interval lo hi).nan = false := hx
+  have hy' : ((evalOf K Γ fe Y).interval lo hi).nan = false := hy
+  have hz' : ((evalOf K Γ fe Z).interval lo hi).nan = false := hz
+  simp only [transformed, hx', hy', hz', Bool.or_false]
+  rfl
+
+/-- flagged enclosure, the property's own notion: a result that is not flagged maybe-NaN bounds a
+    non-NaN value (`nanv` is the "is NaN" predicate of the scalar type) -/
+def enclF {α : Type} (le : α → α → Prop) (nanv : α → Prop) (I : Ivl α) (v : α) : Prop :=
+  I.nan = true ∨ (¬ nanv v ∧ le I.lo v ∧ le v I.hi)
+
+/-- an oracle / evaluator whose interval answer encloses its point answer in the flagged sense on
+    every box -/
+def SoundOracleF {α : Type} (le : α → α → Prop) (nanv : α → Prop) (o : OracleI α) : Prop :=
+  ∀ lo hi p, inBox le lo hi p → enclF le nanv (o.interval lo hi) (o.point p)
+
+/-- **transformed_interval_sound_flagged** (the repaired `evalInterval`, fix dde738c).  If the
+    three coordinate evaluators and the underlying oracle are sound in the flagged sense — their
+    intervals may be flagged maybe-NaN, and then promise nothing — so is the transformed oracle:
+    either a coordinate range is flagged and the result is flagged, or all three coordinates are
+    non-NaN inside their ranges, the transformed point lies in the box handed to the underlying
+    oracle, and its (possibly flagged) answer is passed on.  No order axioms are needed. -/
+theorem transformed_interval_sound_flagged {α : Type} [Add α] [Mul α] (le : α → α → Prop)
+    (nanv : α → Prop) (F : FeatOps α) (u X Y Z : OracleI α)
+    (hu : SoundOracleF le nanv u) (hX : SoundOracleF le nanv X) (hY : SoundOracleF le nanv Y)
+    (hZ : SoundOracleF le nanv Z) : SoundOracleF le nanv (transformed F u X Y Z) := by
+  intro lo hi p hp
+  rcases hX lo hi p hp with fx | ⟨_, hx1, hx2⟩
+  · left; simp [transformed, fx]
+  rcases hY lo hi p hp with fy | ⟨_, hy1, hy2⟩
+  · left; simp [transformed, fy]
+  rcases hZ lo hi p hp with fz | ⟨_, hz1, hz2⟩
+  · left; simp [transformed, fz]
+  rcases hu ⟨(X.interval lo hi).lo, (Y.interval lo hi).lo, (Z.interval lo hi).lo⟩
+      ⟨(X.interval lo hi).hi, (Y.interval lo hi).hi, (Z.interval lo hi).hi⟩ (tpoint X Y Z p)
+      ⟨hx1, hx2, hy1, hy2, hz1, hz2⟩ with fu | hu'
+  · left; simp [transformed, fu]
+  · right; exact hu'
+
+/-- the PRE-FIX `evalInterval` (coordinate flags dropped) is not sound in the flagged sense -/
+def transformedOldInterval {α : Type} (u X Y Z : OracleI α) (lo hi : V3 α) : Ivl α :=
+  u.interval ⟨(X.interval lo hi).lo, (Y.interval lo hi).lo, (Z.interval lo hi).lo⟩
+             ⟨(X.interval lo hi).hi, (Y.interval lo hi).hi, (Z.interval lo hi).hi⟩
+
+/-- witness: scalars `Option Int` (`none` = NaN); the coordinate `X = "sqrt-like" x` (NaN for
+    negative x, flagged on boxes reaching below 0) over the identity oracle.  On the box x ∈ [-1, 1]
+    the old `evalInterval` answered the unflagged `[0, 1]` although the value at x = -1 is NaN; the
+    repaired one flags it. -/
+def leO : Option Int → Option Int → Prop
+  | some a, some b => a ≤ b
+  | _, _ => False
+def wId : OracleI (Option Int) := ⟨fun p => p.x, fun lo hi => ⟨lo.x, hi.x, false⟩, fun p => p, fun _ => []⟩
+def wSqrt : OracleI (Option Int) :=
+  ⟨fun p => match p.x with | some v => if v < 0 then none else some v | none => none,
+   fun lo hi => match lo.x with
+     | some l => if l < 0 then ⟨some 0, hi.x, true⟩ else ⟨lo.x, hi.x, false⟩
+     | none => ⟨none, none, true⟩,
+   fun p => p, fun _ => []⟩
+instance : Add (Option Int) := ⟨fun a b => match a, b with | some x, some y => some (x + y) | _, _ => none⟩
+instance : Mul (Option Int) := ⟨fun a b => match a, b with | some x, some y => some (x * y) | _, _ => none⟩
+def wLo : V3 (Option Int) := ⟨some (-1), some 0, some 0⟩
+def wHi : V3 (Option Int) := ⟨some 1, some 0, some 0⟩
+
+theorem transformed_interval_old_unsound :
+    inBox leO wLo wHi wLo ∧
+    ¬ enclF leO (· = none) (transformedOldInterval wId wSqrt wId wId wLo wHi)
+        ((transformed ⟨fun _ _ => true, fun d _ _ => ⟨d, []⟩, ⟨none, none, none⟩⟩ wId wSqrt wId wId).point wLo) ∧
+    ((transformed ⟨fun _ _ => true, fun d _ _ => ⟨d, []⟩, ⟨none, none, none⟩⟩ wId wSqrt wId wId).interval wLo wHi).nan = true := by
+  refine ⟨by simp [inBox, leO, wLo, wHi], ?_, by simp [transformed, wSqrt, wId, wLo, wHi]⟩
+  simp [enclF, transformedOldInterval, transformed, tpoint, wSqrt, wId, wLo, wHi]
 
 /-! ## gradients and features -/
 
